@@ -265,7 +265,7 @@ PROPS = {
                        "against concrete accept/reject documents by `by (compute)` so it is neither vacuous nor trivial.",
         "trusted_base": COMMON_TRUST + ["Verus 0.2026.09.13 + Z3", "the spec functions in verus/c08_validate.toml are the reading of RFC 8259 sections 2-7 and of Unicode Table 3-7 used as the oracle"],
         "assumptions": ["rule E1: error payloads dropped (`self.error(Kind{..})` -> position-only error); WHICH error kind is reported is not under contract",
-                        "second sentence of the property (error offset not beyond the longest viable prefix) is NOT decided: it needs a constructive "
+                        "second sentence of the property (error offset not beyond the longest viable prefix) is NOT decided in general (recorded finding F8: it fails on \"\\uDC00\", shown by a concrete Kani harness on the real code plus a Verus lemma that the prefix is dead): it needs a constructive "
                         "completion argument for every viable prefix that was not built; for error positions only `offset <= len` and line/column == those of the offset are proved",
                         "line/column meaning used: terminators LF, CR LF (one), lone CR; columns count bytes (what Position documents)",
                         "keyword / number lookahead: the spec rejects `nullx` / `01` at the token (as the code does) instead of at the following "
